@@ -45,6 +45,8 @@ def run(repo: Repo, chk: Check):
     chk.rule("R01.g", "the opcode column of the operator tables is the documented instruction of the operator", floor=20)
     chk.rule("R01.h", "operands of non-commutative constructs are the compiled sub-expressions in source order: (left,right), "
                       "(target,value), (0,operand), select(test,body,orelse), range(start,end,step)", floor=10)
+    chk.rule("R01.j", "an expression folded at compile time is evaluated with the operator its table row names and with the "
+                      "semantics of the instruction emitted when it is not folded (shared with R03.a/b)", floor=40)
     chk.rule("R01.i", "constant-list indexing: every select picks the element whose index the condition encodes", floor=3)
 
     chk.guarded(r01a, repo, chk)
@@ -56,6 +58,8 @@ def run(repo: Repo, chk: Check):
     chk.guarded(r01g, repo, chk)
     chk.guarded(r01h, repo, chk)
     chk.guarded(r01i, repo, chk)
+    from .c03 import fold_table_rows
+    chk.guarded(fold_table_rows, repo, chk, "R01.j", "R01.j")
 
 
 # ---------------------------------------------------------------------- R01.a
@@ -361,6 +365,14 @@ def _r01b_constant_arms(repo, chk, g, fn, fe, flags):
     for node in arms:
         guard = norm(node.test)
         where = f"{g.path}:{node.lineno} in {fn.qual}"
+        # does the arm read the constant of the node the 'not' was stripped from, or of the whole test?
+        stripped = True
+        o = Origin(fn)
+        for a in ast.walk(node.test):
+            if isinstance(a, ast.Attribute) and a.attr in ("constant_value", "value") and not (isinstance(a.value, ast.Attribute) and a.value.attr == "constant_value"):
+                tg = o.tags(a.value, o.node_id(node.test))
+                if tg and "operand" not in tg and tg <= {"test"}:
+                    stripped = False
         for v in (False, True):
             for n in (False, True):
                 tid = fe.node_ids(node.test)
@@ -372,12 +384,14 @@ def _r01b_constant_arms(repo, chk, g, fn, fe, flags):
                 for st in branch:
                     if isinstance(st, ast.Assign) and isinstance(st.value, ast.Constant) and len(st.targets) == 1 and isinstance(st.targets[0], ast.Name):
                         state[st.targets[0].id] = st.value.value
-                python_takes_body = v != n
+                # v is the truth of the node whose constant is read: the operand of 'not' (stripped) or the whole test
+                python_takes_body = (v != n) if stripped else v
                 executed = "body" if state[body_flag] else ("orelse" if state[orelse_flag] else "nothing")
                 exp = "body" if python_takes_body else "orelse"
                 chk.judge("R01.b", f"generate_code:{fn.qual}:constant test [{guard}] value={v} negated={n}", executed == exp,
-                          f"for a constant test that is {v}{' under not' if n else ''} the emitted code runs the {executed} arm, Python runs the {exp} arm",
-                          {"flags": state}, where)
+                          f"for a constant {'operand' if stripped else 'test (whose value already includes the not)'} that is {v}{' under not' if n else ''} "
+                          f"the emitted code runs the {executed} arm, Python runs the {exp} arm",
+                          {"flags": state, "reads": "operand of not" if stripped else "whole test"}, where)
 
 
 # ---------------------------------------------------------------------- R01.d
